@@ -360,10 +360,13 @@ func e11CtlCase(seed uint64, L, mask int) Case {
 		// a slow (not stalled) typed reader: one event per 2 virtual ms while the
 		// producer runs ahead; it may lose events but must never see them out of order
 		var slowSink *typedSink
+		var slowDone chan struct{}
 		if mask&1 == 0 || mask&4 != 0 {
 			ss, _ := ctl.Subscribe()
 			slowSink = &typedSink{}
+			slowDone = make(chan struct{})
 			go func() {
+				defer close(slowDone)
 				for e := range ss.Events() {
 					time.Sleep(2 * time.Millisecond)
 					slowSink.mu.Lock()
@@ -461,6 +464,53 @@ func e11CtlCase(seed uint64, L, mask int) Case {
 		}
 		for i, s := range stalled {
 			var got []evrec
+			if i == 0 && L > kcache.EventBufsiz {
+				// the overrun consumer resumes with a PARTIAL read (its buffer now has
+				// room), then 20 more events are published: those fit and must arrive
+				for k := 0; k < 50; k++ {
+					select {
+					case e, ok := <-s.Events():
+						if ok {
+							got = append(got, evrec{Type: e.Type(), Key: kit.Key(e.Resource()), RV: e.Resource().ResourceVersion})
+						}
+					default:
+					}
+				}
+				before := len(srv.LogCopy())
+				for k := 0; k < 20; k++ {
+					u.mutate(rng, srv)
+				}
+				core.Barrier()
+				var fresh []evrec
+				for _, e := range srv.LogCopy()[before:] {
+					m := e.Obj.(*corev1.Pod)
+					typ := kcacheUpdate
+					switch e.Type {
+					case "ADDED":
+						typ = kcacheCreate
+					case "DELETED":
+						typ = kcacheDelete
+					}
+					fresh = append(fresh, evrec{Type: typ, Key: kit.Key(m), RV: m.ResourceVersion})
+				}
+				sent = append(sent, fresh...)
+				r.Add("resumed-consumer-checks", 1)
+				defer func(fresh []evrec, gotp *[]evrec) {
+					have := map[string]bool{}
+					for _, e := range *gotp {
+						have[e.RV] = true
+					}
+					missing := 0
+					for _, e := range fresh {
+						if !have[e.RV] {
+							missing++
+						}
+					}
+					if missing > 0 {
+						r.V("C10", "resumed-consumer-lost-events", "a typed subscriber that had overrun, then read 50 events (so its buffer had room) did not receive %d of the %d events published afterwards", missing, len(fresh))
+					}
+				}(fresh, &got)
+			}
 		drain:
 			for {
 				select {
@@ -499,6 +549,9 @@ func e11CtlCase(seed uint64, L, mask int) Case {
 			return
 		}
 		core.Barrier()
+		if slowDone != nil {
+			waitCh(slowDone, virtBound) // the slow reader runs out once its channel is closed
+		}
 		if gs := kit.Census(); len(gs) > 0 {
 			r.V("C12", "goroutine-leak", "%d library goroutines remain: %v", len(gs), kit.CensusKeys(gs))
 		}
